@@ -10,7 +10,10 @@ use crate::hast::{H, hb};
 use crate::util::Rng;
 use num_bigint::BigInt;
 
-pub const KINDS: [&str; 18] = [
+pub const KINDS: [&str; 21] = [
+    "group-insert-definition",
+    "group-insert-definition",
+    "group-append-and-retarget",
     "name-subterm",
     "name-subterm",
     "variable-for-variable",
@@ -164,6 +167,29 @@ impl Ed<'_> {
                     H::Let(self.fresh2.clone(), Some(hb(H::Bool)), hb(H::False), hb(H::If(hb(v), hb(H::True), hb(H::Var(self.fresh2.clone())))))
                 };
                 Some(H::Paren(hb(H::Let(self.fresh.clone(), Some(hb(ty)), hb(x.clone()), hb(inner)))))
+            }
+            ("group-insert-definition", H::Let(..)) => {
+                // a new member of the group, in front of this definition (the group grows by one:
+                // every index into or across the group moves)
+                let (ann, def) = match self.r.below(5) {
+                    0 => (H::Type, H::Type),
+                    1 => (H::Type, H::Int),
+                    2 => (H::Type, H::Bool),
+                    3 => (H::Int, H::lit(self.r.below(5) as i64)),
+                    _ => (H::Pi("_".into(), false, hb(H::Int), hb(H::Int)), H::Lam(self.fresh2.clone(), false, Some(hb(H::Int)), hb(H::Var(self.fresh2.clone())))),
+                };
+                Some(H::Let(self.fresh.clone(), Some(hb(ann)), hb(def), hb(x.clone())))
+            }
+            ("group-append-and-retarget", H::Let(n, a, d, b)) if !matches!(b.strip(), H::Let(..)) => {
+                // a new last member; the body either stays or becomes the new member
+                let (ann, def) = match a.as_ref().map(|a| a.strip()) {
+                    Some(H::Type) => (H::Type, if matches!(d.strip(), H::Int) { H::Bool } else { H::Int }),
+                    Some(H::Int) => (H::Int, H::lit(self.r.below(5) as i64)),
+                    Some(H::Bool) => (H::Bool, if coin { H::True } else { H::False }),
+                    _ => (H::Type, if coin { H::Int } else { H::Bool }),
+                };
+                let body = if pick3 != 0 { H::Var(self.fresh.clone()) } else { (**b).clone() };
+                Some(H::Let(n.clone(), a.clone(), d.clone(), hb(H::Let(self.fresh.clone(), Some(hb(ann)), hb(def), hb(body)))))
             }
             ("interpose-binder", _) if !matches!(x, H::Paren(_)) => {
                 let (ty, arg) = match pick3 {
